@@ -393,7 +393,7 @@ func genScript(r *rand.Rand, idx int) *script {
 				want = append(want, w)
 				sp = append(sp, quoteWord(r, w, env, names))
 			}
-			line := "argv" + sepStr(r) + strings.Join(sp, sepStr(r))
+			line := spellCmd(r) + sepStr(r) + strings.Join(sp, sepStr(r))
 			if r.Intn(4) == 0 {
 				line += sepStr(r) + "# trailing comment 'with quote"
 			}
@@ -448,11 +448,20 @@ func genScript(r *rand.Rand, idx int) *script {
 			if strings.Join(w1, "\x00") != strings.Join(w2, "\x00") {
 				p.Alt = w2
 			}
-			add("argv "+raw, p)
+			add(spellCmd(r)+" "+raw, p)
 		}
 	}
 	s.text = sb.String()
 	return s
+}
+
+// spellCmd spells the command word argv, which starts at byte 0 of its line, with or without quoted
+// chunks: the first word of a line is a word like any other.
+func spellCmd(r *rand.Rand) string {
+	if r.Intn(3) != 0 {
+		return "argv"
+	}
+	return []string{"'argv'", "ar'gv'", "a'rg'v", "argv''", "''argv", "arg'v'", "a''rgv"}[r.Intn(7)]
 }
 
 // ---------- execution ----------
@@ -508,7 +517,7 @@ func neighbours(v string) []string {
 func main() {
 	tsh.Main("C02", "exploration", 10*time.Minute, func(r *vlib.Run) {
 		run = r
-		r.Rule("scripts of 12-27 lines: env assignments (names from a 6-name pool, values with blanks, quotes, $, #, CR, arbitrary bytes; re-assignments), word lists spelled by a random quoter (bare / whole-word quotes / partial quotes / doubled quotes / $$ / ${/} / ${:} / $NAME / ${NAME} spellings of substrings equal to a variable's value) and observed by a custom command (args + Getenv), by a real child process (argv, environment), ${V@R} probes, and raw lines against the reference tokenizer. Non-trivial = distinct probed line containing a quote, $, # or CR.")
+		r.Rule("scripts of 12-27 lines: env assignments (names from a 6-name pool, values with blanks, quotes, $, #, CR, arbitrary bytes; re-assignments), word lists spelled by a random quoter (bare / whole-word quotes / partial quotes / doubled quotes / $$ / ${/} / ${:} / $NAME / ${NAME} spellings of substrings equal to a variable's value) and observed by a custom command (args + Getenv), by a real child process (argv, environment), ${V@R} probes, and raw lines against the reference tokenizer; in a third of the probe lines the command word itself (at byte 0 of the line) is spelled with quoted chunks. Non-trivial = distinct probed line containing a quote, $, # or CR.")
 		r.Assume("an unquoted CR may or may not separate words (the statement names blanks and tabs only; the implementation also splits at CR for CRLF scripts): both readings are accepted; $ forms other than $NAME ${NAME} ${NAME@R} $$ ${/} ${:} are not generated")
 		base := vlib.Scratch()
 		nscripts := r.Pick(600, 20000)
